@@ -10,6 +10,7 @@ def mktree(rnd, base, with_dropins=True, broken=0.08):
     """roots, files{abs path: text}; at most one copy of a name per root (readdir order is unspecified within a root)"""
     roots = [os.path.join(base, r) for r in rnd.sample(['s0', 's1', 's2'], rnd.randint(1, 3))]
     files = {}
+    used = set()
     subs = {r: [''] + rnd.sample(['sub', 'sub/deep', 'other'], rnd.randint(0, 2)) for r in roots}
     for r in roots:
         if 'sub/deep' in subs[r] and 'sub' not in subs[r]:
@@ -36,6 +37,9 @@ def mktree(rnd, base, with_dropins=True, broken=0.08):
         for ddir in dn:
             for conf in rnd.sample(['10-a.conf', '20-b.conf', '05-z.conf', 'x.conf', 'notconf.txt'], rnd.randint(0, 3)):
                 for r in rnd.sample(roots, rnd.randint(1, len(roots))):
+                    if (r, ddir, conf) in used:
+                        continue   # the same drop-in twice within one root: readdir order would decide
+                    used.add((r, ddir, conf))
                     d = os.path.join(r, rnd.choice(subs[r])).rstrip('/')
                     tag = (d[len(base) + 1:] + '/' + ddir + '/' + conf).replace('/', '_')
                     sec = SECS[n.rsplit('.', 1)[1]]
